@@ -145,14 +145,15 @@ static void print_snap(peer_t *p) {
     if (!s) { printf("nil"); return; }
     int edskip = (s->flags & SSL_FLAGS_SERVER) && !s->tls13ServerEarlyDataEnabled && s->extFlags.got_early_data;
     int limbo = s->sid && s->sid->sessionTicketState == SESS_TICKET_STATE_IN_LIMBO;
-    printf("v=%d,sv=%d,hs=%d,f=%s%s%s%s,done=%d,err=%d,ed=%d:%d:%d,lb=%d,ig=%d,ce=%d,se=%d,ae=%d,bs=%d,ms=%d",
+    printf("v=%d,sv=%d,hs=%d,f=%s%s%s%s,done=%d,err=%d,ed=%d:%d:%d,lb=%d,ig=%d,ce=%d,se=%d,ae=%d,bs=%d,ms=%d,cl=%d,np=%d",
            ACTV_VER(s, v_tls_1_3_any) ? 1 : 0, (s->flags & SSL_FLAGS_SERVER) ? 1 : 0, (int) s->hsState,
            (s->flags & SSL_FLAGS_ERROR) ? "E" : "", (s->flags & SSL_FLAGS_CLOSED) ? "C" : "",
            (s->flags & SSL_FLAGS_READ_SECURE) ? "R" : "", (s->flags & SSL_FLAGS_WRITE_SECURE) ? "W" : "",
            matrixSslHandshakeIsComplete(s) ? 1 : 0, (int) s->err,
            edskip, (int) (s->tls13ReceivedEarlyDataLen & 0x7fffffff), (int) s->tls13SessionMaxEarlyData, limbo, (int) s->ignoredMessageCount,
            s->tls13ClientEarlyDataEnabled ? 1 : 0, s->tls13ServerEarlyDataEnabled ? 1 : 0,
-           (s->flags & SSL_FLAGS_AEAD_R) ? 1 : 0, (int) s->deBlockSize, (int) s->deMacSize);
+           (s->flags & SSL_FLAGS_AEAD_R) ? 1 : 0, (int) s->deBlockSize, (int) s->deMacSize,
+           s->decState == SSL_HS_CCC ? 1 : 0, (s->sid && s->sid->sessionTicketState == SESS_TICKET_STATE_RECVD_EXT) ? 1 : 0);
 }
 
 /* move whatever the peer wants to send into the queue towards the other side */
